@@ -15,8 +15,16 @@ Transform rules (mechanical, token level; every rule is a textual substitution o
       const and the associated const refers to it (Verus accepts only simple expressions as trait consts; same value)
   G8  an associated const the impl leaves to the trait's default is written out in the impl with the default value read from the
       trait declaration (src/descriptor/<mod>.rs of the current tree): Verus does not see a trait const's default outside the trait's module
-  G6  the contract-less impls `Readable` / `Writable` get no text change (their contract comes from the trait)
-The transformed text is the macro output, not a model of it; the rules are listed in the evidence.
+  G4+ CHOICE: the arms of `write_content` repeated as c_enc / c_ok (`D::x_enc(*c)` / `D::x_ok(*c)`)
+  G11 the forwarding impls `Readable::read` / `Writable::write` get the spec twins t_dec / tr_ok / t_enc / t_ok (= the descriptor's x_dec / x_enc);
+      any other shape of these impls is a GlueError
+Rules that ADD proof obligations (no exec text is changed; each is a `proof fn verif_g<k>_...` placed after the impl it talks about):
+  G9  ENUMERATED: e_from(e_index(v)) == Some(v), index < VARIANT_COUNT, 1 <= STD_VARIANT_COUNT <= VARIANT_COUNT, spec-level round trip
+  G10 bounded non-extensible INTEGER constraint: round trip on [MIN, MAX], the Rust type represents the range exactly, MIN_T/MAX_T == MIN/MAX
+  G12 SET: components visited in non-descending order of their TAG constants, root before additions; FIELD_COUNT == components visited
+  G13 the `-- @expect` lines of the zoo schema (constants X.680 / X.691 prescribe, derived by hand): `verif_g13_consts_<T>` (marker position,
+      counts, which components own a presence bit) and `verif_g13_order_<T>` (visiting order / item numbering)
+The transformed text is the macro output, not a model of it; the rules and how often each fired are listed in the evidence.
 """
 import os
 import re
@@ -109,8 +117,18 @@ def trait_defaults(repo, mod):
     return params, [(a, b.strip(), c.strip()) for a, b, c in re.findall(r'\bconst (\w+)\s*:\s*([^=;]+?)\s*=\s*([^;]+?)\s*;', flat)]
 
 
-def transform(text, repo='/repo'):
+def parse_facts(schema_text):
+    """`-- @expect <Type>: <kind> k=v ...` lines of a zoo schema: the constants X.680 / X.691 prescribe, derived by hand from the schema"""
+    facts = {}
+    for m in re.finditer(r'--\s*@expect\s+(\w+)\s*:\s*(seq|set|enum|choice)\s+(.*)', schema_text):
+        kv = dict(x.split('=', 1) for x in m.group(3).split())
+        facts[m.group(1)] = (m.group(2), kv)
+    return facts
+
+
+def transform(text, repo='/repo', facts=None):
     rules = {}
+    facts = facts or {}
 
     def fire(rule, n=1):
         rules[rule] = rules.get(rule, 0) + n
@@ -175,10 +193,158 @@ def transform(text, repo='/repo'):
             from_expr = body[mf.end():e2 - 1].strip()
             extra = (' open spec fn e_index(&self) -> u64 { %s } open spec fn e_from(index: u64) -> Option<Self> { %s } ' % (idx_expr, from_expr))
         else:
-            extra = (' open spec fn c_index(&self) -> u64 { %s } open spec fn c_enc(&self) -> Seq<bool> { Seq::<bool>::empty() } open spec fn c_ok(&self) -> bool { false } ' % idx_expr)
+            # c_enc / c_ok: the spec twin of write_content -- every arm `Self::V (c) => D::write_value (writer , c)` becomes `D::x_enc(*c)` / `D::x_ok(*c)`
+            enc_expr, ok_expr = 'Seq::<bool>::empty()', 'false'
+            mw = re.search(r'fn write_content \(& ?self ?, writer ?: ?& ?mut UperWriter\) -> Result < \(\) , Error > \{', body)
+            if mw:
+                e3 = balanced(body, mw.end() - 1)
+                wbody = body[mw.end():e3 - 1].strip()
+                mm = re.fullmatch(r'match self \{ (.*) \}', wbody)
+                if mm:
+                    arms = re.findall(r'Self::(\w+) \(c\) => (\w+)::write_value \(writer , c\) ,', mm.group(1))
+                    rest = re.sub(r'Self::(\w+) \(c\) => (\w+)::write_value \(writer , c\) ,', '', mm.group(1)).strip()
+                    if arms and not rest:
+                        enc_expr = 'match self { %s }' % ' '.join('Self::%s (c) => <%s as WritableType>::x_enc(*c) ,' % (v_, d_) for v_, d_ in arms)
+                        ok_expr = 'match self { %s }' % ' '.join('Self::%s (c) => <%s as WritableType>::x_ok(*c) ,' % (v_, d_) for v_, d_ in arms)
+            extra = (' open spec fn c_index(&self) -> u64 { %s } open spec fn c_enc(&self) -> Seq<bool> { %s } open spec fn c_ok(&self) -> bool { %s } ' % (idx_expr, enc_expr, ok_expr))
         fire('G4')
         out.append(t[pos:m.end()] + extra)
         pos = m.end()
+    out.append(t[pos:])
+    t = ''.join(out)
+    # G12: per generated SET a proof obligation (no exec code): the components are visited (write_seq, and read_seq where it has the
+    # struct-literal form) in strictly ascending order of their generated TAG constants, root components before extension additions (C16)
+    out = []
+    pos = 0
+    for m in re.finditer(r'impl set::Constraint for (\w+) \{', t):
+        ty = m.group(1)
+        end = balanced(t, m.end() - 1)
+        body = t[m.end():end - 1]
+        mw = re.search(r'fn write_seq \(&self, writer: &mut UperWriter\) -> Result < \(\) , Error > \{', body)
+        if not mw:
+            raise GlueError('rule G12: write_seq of SET %s not found' % ty)
+        wb = body[mw.end():balanced(body, mw.end() - 1) - 1]
+        worder = re.findall(r'AsnDef(\w+)::write_value \(writer , & self \. \w+\) \?;', wb)
+        if not worder or re.sub(r'AsnDef(\w+)::write_value \(writer , & self \. \w+\) \?;', '', wb).strip() not in ('Ok (())', 'Result::Ok (())'):
+            raise GlueError('rule G12: write_seq of SET %s is not a plain list of write_value calls' % ty)
+        orders = [('w', worder)]
+        mr = re.search(r'\{ Ok \(Self \{ ((?:\w+ : AsnDef\w+::read_value \(reader\) \?, )+)\}\) \}', body)
+        if mr:
+            orders.append(('r', re.findall(r'\w+ : AsnDef(\w+)::read_value \(reader\) \?,', mr.group(1))))
+        law = ''
+        for tag_, order in orders:
+            for a_ in order:
+                if ('struct ___asn1rs_%sConstraint' % a_) not in t:
+                    raise GlueError('rule G12: constraint type of component %s of SET %s not found' % (a_, ty))
+            clauses = ['set_pair_ok(<%s as set::Constraint>::EXTENDED_AFTER_FIELD, %d, <___asn1rs_%sConstraint as common::Constraint>::TAG, <___asn1rs_%sConstraint as common::Constraint>::TAG)'
+                       % (ty, i, order[i], order[i + 1]) for i in range(len(order) - 1)]
+            clauses.append('<%s as set::Constraint>::FIELD_COUNT == %d' % (ty, len(order)))
+            law += ' proof fn verif_g12_order_%s_%s() ensures %s, /*B*/{ }' % (tag_, ty, ', '.join(clauses))
+        out.append(t[pos:end] + law)
+        pos = end
+        fire('G12')
+    out.append(t[pos:])
+    t = ''.join(out)
+    # G13: the hand-derived facts of the zoo schema (`-- @expect` lines) as proof obligations on the generated constants, on the kind of
+    # descriptor chosen per component (owns a presence bit or not) and on the order in which the generated code visits components / numbers items
+    out = []
+    pos = 0
+    seen = set()
+    for m in re.finditer(r'impl (sequence|set|enumerated|choice)::Constraint for (\w+) \{', t):
+        kind, ty = m.group(1), m.group(2)
+        if ty not in facts:
+            continue
+        fkind, kv = facts[ty]
+        seen.add(ty)
+        if {'seq': 'sequence', 'set': 'set', 'enum': 'enumerated', 'choice': 'choice'}[fkind] != kind:
+            raise GlueError('@expect %s: declared %s but the macro emits %s::Constraint' % (ty, fkind, kind))
+        end = balanced(t, m.end() - 1)
+        body = t[m.end():end - 1]
+        c = '<%s as %s::Constraint>' % (ty, kind)
+        cl = []
+        ol = []         # order clauses (C16 / component order), reported as a separate obligation
+        if kind in ('sequence', 'set'):
+            cl.append('%s::EXTENDED_AFTER_FIELD == %s' % (c, 'None::<u64>' if kv['ext'] == '-' else 'Some(%du64)' % int(kv['ext'])))
+            cl.append('%s::STD_OPTIONAL_FIELDS == %d' % (c, int(kv['opt'])))
+            exp = [x.split(':') for x in kv['fields'].split(',')]
+            cl.append('%s::FIELD_COUNT == %d' % (c, len(exp)))
+            mw = re.search(r'fn write_seq \(&self, writer: &mut UperWriter\) -> Result < \(\) , Error > \{', body)
+            wb = body[mw.end():balanced(body, mw.end() - 1) - 1] if mw else ''
+            worder = re.findall(r'(AsnDef\w+)::write_value \(writer , & self \. (\w+)\) \?;', wb)
+            ol.append('verif_expected("write_seq of %s visits %s", %s)' % (ty, ','.join(n for n, _ in exp), 'true' if [n for _, n in worder] == [n for n, _ in exp] else 'false'))
+            mr = re.search(r'fn read_seq <B: ScopedBitRead>\(reader: &mut UperReader<B>\) -> Result < Self , Error > where Self : Sized , \{', body)
+            rb = body[mr.end():balanced(body, mr.end() - 1) - 1] if mr else ''
+            rorder = re.findall(r'(AsnDef\w+)::read_value \(reader\)', rb)
+            # order (C16): what read_seq reads is a subsequence of what write_seq writes, i.e. the relative order agrees;
+            # completeness (C01 / C03): it reads every component -- a separate clause of the consts obligation
+            wl = [a for a, _ in worder]
+            it = iter(wl)
+            ol.append('verif_expected("read_seq of %s reads components in the relative order write_seq writes them", %s)' % (ty, 'true' if all(a in it for a in rorder) else 'false'))
+            cl.append('verif_expected("read_seq of %s reads every component write_seq writes, once", %s)' % (ty, 'true' if sorted(rorder) == sorted(wl) else 'false'))
+            for (alias, name) in worder:
+                k = dict((n, k_) for n, k_ in exp).get(name)
+                if k is not None:
+                    cl.append('<%s as WritableType>::w_is_opt() == %s && <%s as ReadableType>::r_is_opt() == %s' % (alias, 'true' if k == 'o' else 'false', alias, 'true' if k == 'o' else 'false'))
+        else:
+            cl.append('%s::STD_VARIANT_COUNT == %d' % (c, int(kv['std'])))
+            cl.append('%s::EXTENSIBLE == %s' % (c, kv['ext']))
+            if 'alts' in kv:
+                alts = kv['alts'].split(',')
+                cl.append('%s::VARIANT_COUNT == %d' % (c, len(alts)))
+                for i, a in enumerate(alts):
+                    if kind == 'enumerated':
+                        ol.append('%s::e_index(&%s::%s) == %d' % (c, ty, a, i))
+                    else:
+                        ol.append('forall|v: %s| (v is %s) ==> #[trigger] %s::c_index(&v) == %d' % (ty, a, c, i))
+        out.append(t[pos:end] + ' proof fn verif_g13_consts_%s() ensures %s, /*B*/{ }' % (ty, ', '.join(cl))
+                   + (' proof fn verif_g13_order_%s() ensures %s, /*B*/{ }' % (ty, ', '.join(ol)) if ol else ''))
+        pos = end
+        fire('G13')
+    out.append(t[pos:])
+    t = ''.join(out)
+    missing = sorted(set(facts) - seen)
+    if missing:
+        raise GlueError('@expect names types the macro output does not define: %s' % ', '.join(missing))
+    # G11: spec twins of the forwarding impls `Readable::read` / `Writable::write` (t_dec / t_enc are the descriptor's x_dec / x_enc)
+    def g11_r(m):
+        fire('G11')
+        return ('impl Readable for %s { open spec fn t_dec(bytes: Seq<u8>, pos: int, limit: int) -> Option<(Self, int)> { <%s as ReadableType>::x_dec(bytes, pos, limit) } '
+                'open spec fn tr_ok() -> bool { <%s as ReadableType>::xr_ok() } %s' % (m.group(1), m.group(3), m.group(3), m.group(2)))
+    t, n = re.subn(r'impl Readable for (\w+) \{ (fn read <B: ScopedBitRead>\(reader: &mut UperReader<B>\) -> Result < Self , Error > \{ (\w+)::read_value \(reader\) \} \})', g11_r, t)
+    def g11_w(m):
+        fire('G11')
+        return ('impl Writable for %s { open spec fn t_enc(&self) -> Seq<bool> { <%s as WritableType>::x_enc(*self) } '
+                'open spec fn t_ok(&self) -> bool { <%s as WritableType>::x_ok(*self) } %s' % (m.group(1), m.group(3), m.group(3), m.group(2)))
+    t, n = re.subn(r'impl Writable for (\w+) \{ (fn write \(&self, writer: &mut UperWriter\) -> Result < \(\) , Error > \{ (\w+)::write_value \(writer , self\) \} \})', g11_w, t)
+    if re.search(r'impl (Readable|Writable) for \w+ \{ fn ', t):
+        raise GlueError('an impl of Readable / Writable is not of the forwarding form rule G11 knows')
+    # G10: per bounded, non-extensible INTEGER constraint a proof obligation (no exec code): the constants describe a range the chosen
+    # Rust type represents exactly (C15 on the zoo) and the descriptor codec round trips on it at the specification level (C01)
+    out = []
+    pos = 0
+    for m in re.finditer(r'impl numbers::Constraint < (\w+) > for (\w+) \{', t):
+        nty, ty = m.group(1), m.group(2)
+        end = balanced(t, m.end() - 1)
+        body = t[m.end():end - 1]
+        lo = re.search(r'const MIN : Option < i64 > = Some \((- ?\d+|\d+)\) ;', body)
+        hi = re.search(r'const MAX : Option < i64 > = Some \((- ?\d+|\d+)\) ;', body)
+        ext = re.search(r'const EXTENSIBLE : bool = (true|false) ;', body)
+        if not (lo and hi) or (ext and ext.group(1) == 'true'):
+            continue
+        lo_v, hi_v = int(lo.group(1).replace(' ', '')), int(hi.group(1).replace(' ', ''))
+        if not lo_v < hi_v:
+            continue        # a single-value range occupies no bits: Integer::xr_ok() is false, nothing to state
+        d = 'numbers::Integer::<%s, %s>' % (nty, ty)
+        c = '<%s as numbers::Constraint<%s>>' % (ty, nty)
+        law = (' proof fn verif_g10_rt_{ty}(v: {nty}) requires ({lo}i64) <= numbers::Number::n_i64(v) <= ({hi}i64){u64} '
+               'ensures rt_at(|x: {nty}| {d}::x_enc(x), |b: Seq<u8>, p: int, l: int| {d}::x_dec(b, p, l), v), '
+               'forall|n: i64| ({lo}i64) <= n <= ({hi}i64) ==> numbers::Number::n_i64(#[trigger] <{nty} as numbers::Number>::n_from(n)) == n, '
+               '({c}::MIN_T matches Some(m_) ==> numbers::Number::n_i64(m_) == ({lo}i64)) && ({c}::MAX_T matches Some(m_) ==> numbers::Number::n_i64(m_) == ({hi}i64)), '
+               '/*B*/{{ lemma_number_law_{nty}(v); lemma_rt_integer_descriptor::<{nty}, {ty}>(v); }}'
+               ).format(ty=ty, nty=nty, lo=lo_v, hi=hi_v, d=d, c=c, u64=(', v <= 0x7fff_ffff_ffff_ffffu64' if nty == 'u64' else ''))
+        out.append(t[pos:end] + law)
+        pos = end
+        fire('G10')
     out.append(t[pos:])
     t = ''.join(out)
     # G8: defaults of associated consts made explicit (Verus does not see the default value of a trait const outside the trait's module)
@@ -239,9 +405,29 @@ def transform(text, repo='/repo'):
         pos = end
     out.append(t[pos:])
     t = ''.join(out)
+    # G9: per generated ENUMERATED a proof obligation (no exec code): the law of the generated value type and the spec-level round trip
+    out = []
+    pos = 0
+    for m in re.finditer(r'impl enumerated::Constraint for (\w+) \{', t):
+        ty = m.group(1)
+        end = balanced(t, m.end() - 1)
+        c = '<%s as enumerated::Constraint>' % ty
+        d = 'enumerated::Enumerated::<%s>' % ty
+        law = (' proof fn verif_g9_rt_{ty}(v: {ty}) ensures {c}::e_from({c}::e_index(&v)) == Some(v), {c}::e_index(&v) < {c}::VARIANT_COUNT, {c}::STD_VARIANT_COUNT >= 1, '
+               '{c}::STD_VARIANT_COUNT <= {c}::VARIANT_COUNT, {c}::EXTENSIBLE || {c}::e_index(&v) < {c}::STD_VARIANT_COUNT, '
+               'rt_at(|x: {ty}| {d}::x_enc(x), |b: Seq<u8>, p: int, l: int| {d}::x_dec(b, p, l), v), '
+               '<{ty} as Readable>::tr_ok() && <{ty} as Writable>::t_ok(&v) && rt_at(|x: {ty}| <{ty} as Writable>::t_enc(&x), |b: Seq<u8>, p: int, l: int| <{ty} as Readable>::t_dec(b, p, l), v), '
+               '/*B*/{{ assert forall|bytes: Seq<u8>, pos: int, limit: int| 0 <= pos && starts_with(bytes, pos, {d}::x_enc(v)) && pos + {d}::x_enc(v).len() <= limit '
+               'implies #[trigger] {d}::x_dec(bytes, pos, limit) == Some((v, pos + {d}::x_enc(v).len())) by '
+               '{{ lemma_rt_index(bytes, pos, limit, {c}::STD_VARIANT_COUNT, {c}::EXTENSIBLE, {c}::e_index(&v)); }} }}').format(ty=ty, c=c, d=d)
+        out.append(t[pos:end] + law)
+        pos = end
+        fire('G9')
+    out.append(t[pos:])
+    t = ''.join(out)
     # one item per line for readable diagnostics
     t = re.sub(r' (impl |pub struct |pub enum |struct |type )', r'\n\1', t)
-    t = re.sub(r' (fn |const |open spec fn )', r'\n    \1', t)
+    t = re.sub(r' (proof fn |(?<!proof )fn |const |open spec fn )', r'\n    \1', t)
     return t, rules
 
 
@@ -252,6 +438,16 @@ def insert_canaries(g):
     n = 0
     for m in re.finditer(r'(?<!spec )\bfn \w+', g):
         i = m.end()
+        if g[max(0, m.start() - 6):m.start()] == 'proof ':
+            # proof obligations added by rules G9-G13: their ensures clauses contain comparison operators, the body is marked
+            i = g.find('/*B*/{', m.end())
+            if i < 0:
+                raise GlueError('proof fn without body marker')
+            i += 5
+            out.append(g[pos:i + 1] + ' assert(false); ')
+            pos = i + 1
+            n += 1
+            continue
         depth = 0
         while i < len(g):
             c = g[i]
